@@ -468,6 +468,8 @@ def generate(prop, seed, tier, n_incompat_max):
         spec = gen_dsg.add_two_entry_cycle(rng, spec)
     elif motif < 0.22:
         spec = gen_dsg.add_reconvergent(rng, spec)
+    elif motif < 0.30:
+        spec = gen_dsg.add_interlocking_cycles(rng, spec)
     orng = s('ops')
     n_walks = 3 if tier == 'quick' else 5
     walks = [{'order_seed': orng.getrandbits(32), 'picks': None} for _ in range(n_walks)]
